@@ -7,13 +7,20 @@ needs "the right key opens, another does not" and "equal transcripts give equal 
 namespace Drv.C15
 open Line Wire Ech
 
+/-- injective numbering of (public key, info) pairs: digits 0..255 for bytes, 256 as separator. -/
+def ctxNum (pk info : Bytes) : Nat :=
+  (pk.map (·.toNat) ++ 256 :: info.map (·.toNat)).foldr (fun d acc => (d + 1) + 258 * acc) 0
+
+def ctxTag (k : Nat) : Bytes := (toString k).toUTF8.toList
+
 def toyC : Crypto where
   conf := fun l r tr => u8 l ++ vec16 r ++ tr
   mhash := fun m => [0xfe] ++ vec24 m
-  hseal := fun k _ pt => u8 k ++ pt
-  hopen := fun k _ ct => match ct with
-    | h :: t => if h.toNat = k then some t else none
-    | [] => none
+  ctx := ctxNum
+  hseal := fun k _ pt => vec16 (ctxTag k) ++ pt
+  hopen := fun k _ ct => match readVec16 ct with
+    | some (t, rest) => if t = ctxTag k then some rest else none
+    | none => none
 
 def errName : DecErr → String
   | .invalidInner => "invalidInner"
@@ -166,15 +173,25 @@ def Pred.render (p : Pred) : String :=
 
 def bytesStr (b : Bytes) : String := String.ofList (b.map fun x => Char.ofNat x.toNat)
 
-def serverKeys (srv : String) (srvretry : Bytes) : List SKey :=
-  match srv with
-  | "accept" => [⟨1, [], true⟩]
-  | "hrr" => [⟨1, [], true⟩]
-  | "accept2" => [⟨2, [], true⟩, ⟨1, [], true⟩]
-  | "rejkey" => [⟨2, srvretry.drop 2, true⟩]
-  | "rejhrr" => [⟨2, srvretry.drop 2, true⟩]
-  | "rejnoretry" => [⟨2, [], false⟩]
-  | _ => []
+/-- the server's keys from the line: `configHex:sendAsRetry` in order; the HPKE key is identified
+by the public key inside the config it was configured with. -/
+def serverKeys (toks : List String) : Option (List SKey) :=
+  toks.mapM fun t =>
+    match t.splitOn ":" with
+    | [c, r] =>
+      match unhex c with
+      | some cb =>
+        match parseConfig cb with
+        | .cfg cfg => some ⟨cfg.publicKey, cb, r = "1"⟩
+        | _ => none
+      | none => none
+    | _ => none
+
+/-- (kdf, aead, config id) of an outer ECH extension body. -/
+def echHeader (h : Hello) : Option (Nat × Nat × Nat) :=
+  match findExt h.exts extECH with
+  | some (0 :: a :: c :: d :: e :: i :: _) => some (a.toNat * 256 + c.toNat, d.toNat * 256 + e.toNat, i.toNat)
+  | _ => none
 
 def finishPred (cfg : VerifyPlan.Cfg) (sn pub : String) (innerRandom trC : Bytes)
     (view : SrvView) (trS : Bytes) : Pred :=
@@ -200,44 +217,67 @@ def finishPred (cfg : VerifyPlan.Cfg) (sn pub : String) (innerRandom trC : Bytes
 def hs (c : Case) : Verdict :=
   let i := c.input
   let o := c.output
+  if o.getD "out" "?" = "no-hello" then
+    -- the client sent nothing: a violation iff its list holds a config the selection rules accept
+    match ((o.bytes "clist").bind parseConfigList).map pickConfig with
+    | some (some _) => .propFail s!"nohello,{i.getD "srv" "?"}" s!"no-ClientHello-although-the-config-list-has-a-usable-config({o.getD "c" "?"},{o.getD "prep" "?"})"
+    | some none => .ok "nohello,nousable"
+    | none => .ok "nohello,malformed-list"
+  else
   if o.getD "out" "?" ≠ "ok" then .diff "harness" s!"out=ok (got {o.getD "out" "?"})" else
   let srv := i.getD "srv" "?"
   let sn := i.getD "sn" "?"
   let pub := i.getD "pub" "?"
   let idClass := if i.getD "id" "?" = "Golang-0" then "go" else "utls"
-  let tag := s!"{idClass},{srv},{o.getD "c" "?"}"
+  let layout := i.getD "cl" "P"
+  let lclass := if layout = "P" then "single" else if layout.endsWith "P" then "last" else if layout.startsWith "P" then "first" else "middle"
+  let tag := s!"{idClass},{srv},{lclass},{o.getD "c" "?"}"
   let nch := (o.nat "nch").getD 0
-  match (o.bytes "ch1").bind parseHello, o.bytes "enc1", (o.bytes "inner").bind parseHello, o.nat "imnl", o.nats "oext" with
-  | some outer1, some enc1, some inner, some mnl, some oext =>
-    let utls := o.getD "reorder" "0" = "1"
-    let ot := if utls then some oext else none
-    let secret := strBytes sn
-    -- ---- monitors on the implementation's output (property clauses)
+  let secret := strBytes sn
+  let accepting := srv = "accept" ∨ srv = "accept2" ∨ srv = "hrr"
+  let hrrMode := srv = "hrr" ∨ srv = "rejhrr"
+  match (o.bytes "ch1").bind parseHello, (o.bytes "clist").bind parseConfigList, serverKeys (listOf (o.getD "skeys" "-")) with
+  | some outer1, some cfgs, some keys =>
+    match pickConfig cfgs with
+    | none => .bad "ech_hs: the model picks no config from the client's list"
+    | some picked =>
     let ch1B := (o.bytes "ch1").getD []
     let ch2B := (o.bytes "ch2").getD []
-    let recon1 := (o.bytes "recon1").bind parseHello
-    let recon2 := (o.bytes "recon2").bind parseHello
     let outer2 := (o.bytes "ch2").bind parseHello
-    let accepting := srv = "accept" ∨ srv = "accept2" ∨ srv = "hrr"
-    let hrrMode := srv = "hrr" ∨ srv = "rejhrr"
+    let c2 := o.getD "c2" "-"
+    -- ---- monitors on the implementation's output (property clauses), part 1: needs no decryption
     if o.getD "leak" "?" ≠ "0" ∨ isInfix secret ch1B ∨ (nch ≥ 2 ∧ isInfix secret ch2B) then
       .propFail tag "server-name-in-plaintext-flight"
     else if outer1.serverName ≠ some (strBytes pub) ∨ (nch ≥ 2 ∧ (outer2.bind (·.serverName)) ≠ some (strBytes pub)) then
       .propFail tag "outer-sni-is-not-the-public-name"
-    else if recon1.isNone then
+    else if accepting ∧ ¬ (o.getD "c" "?" = "ok" ∧ o.getD "cech" "?" = "1" ∧ o.getD "sech" "?" = "1" ∧
+        o.getD "csn" "?" = sn ∧ o.getD "ssn" "?" = sn ∧ o.getD "echo" "?" = "1") then
+      .propFail tag "accepting-server-but-handshake-not-completed-with-ECHAccepted-and-ServerName"
+    else if ¬ accepting ∧ ¬ (o.getD "c" "?" = "echrej" ∧ o.getD "retry" "?" = o.getD "srvretry" "!") then
+      .propFail tag "rejecting-server-but-no-ECHRejectionError-with-its-retry-configs"
+    else if ¬ accepting ∧ o.getD "retry" "-" ≠ "-" ∧ ¬ (c2 = "ok" ∧ o.getD "cech2" "?" = "1" ∧ o.getD "sech2" "?" = "1" ∧
+        o.getD "csn2" "?" = sn ∧ o.getD "ssn2" "?" = sn) then
+      .propFail tag "retry-config-list-not-accepted-by-the-server-that-sent-it"
+    else
+    match o.bytes "enc1", (o.bytes "inner").bind parseHello, o.nat "imnl", o.nats "oext" with
+    | some enc1, some inner, some mnl, some oext =>
+    let utls := o.getD "reorder" "0" = "1"
+    let ot := if utls then some oext else none
+    let recon1 := (o.bytes "recon1").bind parseHello
+    let recon2 := (o.bytes "recon2").bind parseHello
+    -- ---- monitors, part 2: what the holder of the key finds inside
+    if recon1.isNone then
       .propFail tag s!"server-cannot-reconstruct-the-inner-hello({o.getD "open" "?"},{(o.getD "recon1" "?").take 24})"
     else if (recon1.bind (·.serverName)) ≠ some secret then .propFail tag "decrypted-inner-hello-does-not-name-ServerName"
     else if (match recon1 with | some r => !expansionOk outer1 r enc1 | none => true) then
       .propFail tag "compressed-extension-does-not-expand-to-outer-value"
-    else if accepting ∧ ¬ (o.getD "c" "?" = "ok" ∧ o.getD "cech" "?" = "1" ∧ o.getD "sech" "?" = "1" ∧
-        o.getD "csn" "?" = sn ∧ o.getD "ssn" "?" = sn ∧ o.getD "echo" "?" = "1") then
-      .propFail tag "accepting-server-but-handshake-not-completed-with-ECHAccepted-and-ServerName"
     else if srv = "hrr" ∧ ¬ (nch = 2 ∧ (recon2.map fun r => decide ((sharesOf r).length = 1 ∧ r.serverName = some secret)) = some true) then
       .propFail tag "second-inner-hello-after-HRR-not-one-key-share"
-    else if ¬ accepting ∧ ¬ (o.getD "c" "?" = "echrej" ∧ o.getD "retry" "?" = o.getD "srvretry" "!") then
-      .propFail tag "rejecting-server-but-no-ECHRejectionError-with-its-retry-configs"
     else
     -- ---- correspondence with the model
+    -- (0) config selection: the outer ECH extension announces the picked config and suite
+    let hdrM := (pickSuite picked).map fun s => (s.1, s.2, picked.configId)
+    if echHeader outer1 ≠ hdrM then .diff tag s!"ech-ext-header(kdf,aead,id)={repr hdrM}" else
     -- (1) decoder on every opened hello
     let d1 := decodeInner outer1 enc1
     if renderDec d1 ≠ o.getD "recon1" "?" then .diff tag s!"recon1={renderDec d1}" else
@@ -250,12 +290,12 @@ def hs (c : Case) : Verdict :=
     let lastEnc := (o.bytes "enc2").getD enc1
     let encM := encodeInner inner mnl ot
     if encM ≠ lastEnc then .diff tag s!"enc={hex encM}" else
-    -- (3) the handshake run
+    -- (3) the handshake run; HPKE contexts from (public key, "tls ech\0" ‖ config bytes) on both sides
     let cfg : VerifyPlan.Cfg := ⟨sn, "", false, false, true⟩
-    let keys := serverKeys srv ((o.bytes "srvretry").getD [])
+    let cctx := clientCtx toyC picked
     let innerRandom := inner.vr.drop 2
     let aad1 := outer1.body
-    let view1 := tryKeys toyC keys outer1 aad1 (toyC.hseal 1 aad1 enc1)
+    let view1 := tryKeys toyC keys outer1 aad1 (toyC.hseal cctx aad1 enc1)
     let pred : Pred :=
       if !hrrMode then
         match clientInnerMsg utls inner outer1 mnl ot with
@@ -291,7 +331,7 @@ def hs (c : Case) : Verdict :=
               else
                 let aad2 := o2.body
                 if acc then
-                  let view2 := tryKeys toyC keys o2 aad2 (toyC.hseal 1 aad2 lastEnc)
+                  let view2 := tryKeys toyC keys o2 aad2 (toyC.hseal cctx aad2 lastEnc)
                   match clientInnerMsg utls inner o2 mnl ot with
                   | none => ⟨"abort", "0", "0", "-", "-", "-"⟩
                   | some m2 =>
@@ -303,8 +343,20 @@ def hs (c : Case) : Verdict :=
                 else
                   finishPred cfg sn pub innerRandom m1 (.rejected (retryList keys)) []
     let got : Pred := ⟨o.getD "c" "?", o.getD "cech" "?", o.getD "sech" "?", o.getD "csn" "?", o.getD "ssn" "?", o.getD "retry" "?"⟩
-    if pred.render ≠ got.render then .diff tag pred.render else .ok tag
-  | _, _, _, _, _ => .bad "ech_hs: unparsable output"
+    if pred.render ≠ got.render then .diff tag pred.render else
+    -- (4) the second connection with the returned retry list: the model picks from that list
+    let pred2 : String :=
+      match o.bytes "retry" with
+      | some rl =>
+        if rl.isEmpty ∨ o.getD "c" "?" ≠ "echrej" then "-" else
+        match (parseConfigList rl).bind pickConfig with
+        | none => "no-usable-config"
+        | some p2 => if keys.any (fun k => k.ctxOf toyC == clientCtx toyC p2) then "ok" else "echrej"
+      | none => "-"
+    if pred2 ≠ c2 then .diff tag s!"c2={pred2}" else .ok tag
+    | _, _, _, _ =>
+      .propFail tag s!"first-ClientHello-ECH-payload-does-not-open-with-the-picked-config's-key-and-info({o.getD "open" "?"})"
+  | _, _, _ => .bad "ech_hs: unparsable output"
 
 def families : List (String × (Case → Verdict)) := [("ech_codec", codec), ("ech_hs", hs)]
 
